@@ -37,7 +37,7 @@ fn yes() -> bool {
     true
 }
 
-pub const FIXED_PATTERNS: [&str; 4] = ["a.{}.log", "arch/{}/a.log", "a.{}.log.gz", "a.{}.zst"];
+pub const FIXED_PATTERNS: [&str; 6] = ["a.{}.log", "arch/{}/a.log", "a.{}.log.gz", "a.{}.zst", "arch/run-{}/a.{}.log", "z{}/a.{}.gz"];
 pub const T0: i64 = 1_700_000_000;
 
 pub fn roller_strategy(min_count: u32) -> impl Strategy<Value = RollSpec> {
@@ -143,7 +143,7 @@ pub fn parse_chunks(chunks: &[Vec<u8>]) -> Result<Vec<RecId>, Failure> {
 
 #[cfg(feature = "bg")]
 fn settle(dir: &Path) {
-    crate::c07::wait_bg_idle(dir, "active.log");
+    crate::c07::wait_bg_idle(&dir.join("active.log"));
 }
 #[cfg(not(feature = "bg"))]
 fn settle(_dir: &Path) {}
